@@ -76,7 +76,32 @@ fn load(n: &Number) -> String {
     }
 }
 
+/// fold `a op b` / `-a` through `impl CompileTimeEvaluate for Expr` (literal leaves), as the parser does for a literal expression
+fn fold_expr(op: &str, args: &[Number]) -> String {
+    use crate::ast::Expr;
+    let leaf = |n: &Number| Box::new(Expr::Value(Value::Number(n.clone())));
+    let e = if op == "negate" {
+        Expr::UnaryMinus(leaf(&args[0]))
+    } else {
+        let o = match op {
+            "add" => Op::Add, "sub" => Op::Subtract, "mul" => Op::Multiply, "div" => Op::Divide, "rem" => Op::Modulo,
+            "shl" => Op::BitwiseLs, "shr" => Op::BitwiseRs, "bitand" => Op::BinaryAnd, "bitor" => Op::BinaryOr, "bitxor" => Op::BinaryXor,
+            _ => panic!("op {op}"),
+        };
+        Expr::BinOp { lhs: leaf(&args[0]), op: o, rhs: leaf(&args[1]) }
+    };
+    match e.try_constexpr_eval() {
+        Ok(ConstexprEvaluation::Owned(Value::Number(n))) => load(&n),
+        Ok(ConstexprEvaluation::Owned(_)) => "OK Other 0".to_string(),
+        Ok(ConstexprEvaluation::Impossible) => "DEFER".to_string(),
+        Err(_) => "ERR".to_string(),
+    }
+}
+
 fn fold(op: &str, args: &[Number]) -> String {
+    if let Some(o) = op.strip_prefix("expr:") {
+        return fold_expr(o, args);
+    }
     let r = match op {
         "add" => &args[0] + &args[1],
         "sub" => &args[0] - &args[1],
